@@ -356,7 +356,7 @@ package main
 //@   loop 1 invariant ops {C18}: envOps > 0 && outN >= old(outN)
 //@   loop 1 invariant keyfile {C11}: implies(encOn && old(fsKind)[kf] != 0, fsWrites == old(fsWrites) && fsKind[kf] == old(fsKind)[kf] && fsData[kf] == old(fsData)[kf] && keyValid)
 //@   loop 1 invariant key {C11}: implies(shouldEncrypt && encryptionKey != nil, havePersisted && persistedKey == mkbytes(elems(encryptionKey), off(encryptionKey), len(encryptionKey)))
-//@   loop 1 invariant cfg {C01,C05}: redactedString == *replacement && G.redactNumbers == *redactNumbers && G.redactBooleans == *redactBooleans && G.redactIPs == *redactIPs && G.redactNamespaces == *redactNamespaces && G.eagerRedactionPaths == *eagerRedactionPaths && (G.redactedFieldsRegexp == nil) == (*redactedFieldsRegexp == "")
+//@   loop 1 invariant cfg {C01,C05}: redactedString == old(*replacement) && G.redactNumbers == old(*redactNumbers) && G.redactBooleans == old(*redactBooleans) && G.redactIPs == old(*redactIPs) && G.redactNamespaces == old(*redactNamespaces) && G.eagerRedactionPaths == old(*eagerRedactionPaths) && (G.redactedFieldsRegexp == nil) == (old(*redactedFieldsRegexp) == "")
 //@   exit_requires nonzero {C18,C08}: code != 0
 //@   exit_requires sound {C18}: implies(!WD, effects == 0)
 //@   exit_requires message {C18}: implies(!WD, stderrN > 0)
@@ -372,8 +372,8 @@ package main
 //@   exit_requires unusable-key-no-output {C11}: implies(encOn && old(fsKind)[kf] != 0 && !keyValid, outN == old(outN))
 //@   ensures unusable-key-never-succeeds {C11}: !(encOn && old(fsKind)[kf] != 0 && !keyValid)
 //@   ensures new-key-stored {C11}: implies(encOn && old(fsKind)[kf] == 0, fsKind[kf] == 1 && fsPerm[kf] == 384 && havePersisted && fsData[kf] == sbytes(b64enc(persistedKey)) && blen(persistedKey) == 64)
-//@   at_call ProcessMongoLogFile wiring {C01,C05}: redactedString == *replacement && G.redactNumbers == *redactNumbers && G.redactBooleans == *redactBooleans && G.redactIPs == *redactIPs && G.redactNamespaces == *redactNamespaces && G.eagerRedactionPaths == *eagerRedactionPaths && (G.redactedFieldsRegexp == nil) == (*redactedFieldsRegexp == "")
-//@   at_call ProcessMongoLogFileFromReader wiring {C01,C05}: redactedString == *replacement && G.redactNumbers == *redactNumbers && G.redactBooleans == *redactBooleans && G.redactIPs == *redactIPs && G.redactNamespaces == *redactNamespaces && G.eagerRedactionPaths == *eagerRedactionPaths && (G.redactedFieldsRegexp == nil) == (*redactedFieldsRegexp == "")
+//@   at_call ProcessMongoLogFile wiring {C01,C05}: redactedString == old(*replacement) && G.redactNumbers == old(*redactNumbers) && G.redactBooleans == old(*redactBooleans) && G.redactIPs == old(*redactIPs) && G.redactNamespaces == old(*redactNamespaces) && G.eagerRedactionPaths == old(*eagerRedactionPaths) && (G.redactedFieldsRegexp == nil) == (old(*redactedFieldsRegexp) == "")
+//@   at_call ProcessMongoLogFileFromReader wiring {C01,C05}: redactedString == old(*replacement) && G.redactNumbers == old(*redactNumbers) && G.redactBooleans == old(*redactBooleans) && G.redactIPs == old(*redactIPs) && G.redactNamespaces == old(*redactNamespaces) && G.eagerRedactionPaths == old(*eagerRedactionPaths) && (G.redactedFieldsRegexp == nil) == (old(*redactedFieldsRegexp) == "")
 //@   at_call ProcessMongoLogFile#1 pairing {C16}: filePath == file && fileName[outWriter] == sprintf2("%s.%d", VStr(*outputFile), VInt(i)) && file == files[i]
 //@   at_call os.Create no-side-effect-before-the-field-pattern-is-checked {C18}: *redactedFieldsRegexp == "" || regexpValid(*redactedFieldsRegexp)
 //@   at_call WriteKeyToFile no-side-effect-before-the-field-pattern-is-checked {C18}: *redactedFieldsRegexp == "" || regexpValid(*redactedFieldsRegexp)
